@@ -72,6 +72,12 @@ impl<'a> Mach<'a> {
         let r = guarded(move || { let mut y = x; y.xor_bit(k, val); V::S(y) });
         self.put(dst, Ev::new("xor_bit").n("a", a as i64).n("k", k as i64).b("val", &val.to_le_bytes()), r)
     }
+    /// GFb127 only: write the low bit of val at bit index k
+    fn set_bit(&mut self, dst: usize, a: usize, k: usize, val: u32) -> bool {
+        let x = match self.regs[a] { V::S(x) => x, _ => return true };
+        let r = guarded(move || { let mut y = x; y.set_bit(k, val); V::S(y) });
+        self.put(dst, Ev::new("set_bit").n("a", a as i64).n("k", k as i64).b("val", &val.to_le_bytes()), r)
+    }
     fn observe(&mut self, op: &str, a: usize, b: usize, k: usize) {
         let (x, y) = (self.regs[a], self.regs[b]);
         let e = Ev::new(op).n("a", a as i64);
@@ -221,7 +227,8 @@ pub fn run(tr: &mut Trace, rng: &mut Rng, scripts: usize, len: usize) {
                     13 => { m.observe("get_bit", a, b, rng.below(127));
                             let rk = rng.below(127);
                             let k = *rng.pick(&[0usize, 1, 5, 31, 32, 62, 63, 64, 65, 100, 125, 126, rk]);
-                            m.xor_bit(d, a, k, *rng.pick(&[0u32, 1, 2, 3, 0xFFFFFFFE, 0xFFFFFFFF])) }
+                            let val = *rng.pick(&[0u32, 1, 2, 3, 0xFFFFFFFE, 0xFFFFFFFF]);
+                            if rk % 2 == 0 { m.xor_bit(d, a, k, val) } else { m.set_bit(d, a, k, val) } }
                     14 | 15 => m.set_cond(d, a, *rng.pick(&CTL)),
                     16 | 17 => m.select(d, a, b, *rng.pick(&CTL)),
                     18 | 19 => m.cswap(a, b, *rng.pick(&CTL)),
